@@ -804,6 +804,24 @@ def unusual_signatures(cx):
                 f"omitted parameters must be bound to their signature defaults {exp}, the callee saw {got}", case)
         h.nontrivial(("string-defaults", tuple(argv)))
 
+    # an Enum member as the default of a Union that also admits str: the default is stored by its name and re-read through the Union
+    ns = {"CALLS": CALLS, "__name__": __name__, "Optional": _O, "Union": _U, "Color": Color}
+    exec("def fenum(a: Union[str, Color] = Color.RED, b: Union[Color, str] = Color.RED, c: Optional[Color] = Color.BLUE, d: Color = Color.RED, n: int = 3):\n"
+         "    CALLS.append(('fenum', {'a': a, 'b': b, 'c': c, 'd': d, 'n': n}, None))\n    return 'ret'", ns)
+    want = {"a": Color.RED, "b": Color.RED, "c": Color.BLUE, "d": Color.RED, "n": 3}
+    for argv in ([], ["--n=4"]):
+        del CALLS[:]
+        res = outcome(auto_cli, ns["fenum"], args=argv)
+        exp = dict(want, n=4 if argv else 3)
+        got = CALLS[-1][1] if CALLS else None
+        case = {"component": "def fenum(a: Union[str, Color] = Color.RED, b: Union[Color, str] = Color.RED, c: Optional[Color] = Color.BLUE, d: Color = Color.RED, n: int = 3)", "argv": argv,
+                "outcome": res, "calls": [(c[0], {k: repr(v) for k, v in c[1].items()}) for c in CALLS]}
+        cx.accepted += 1
+        bad = sorted(k for k in exp if got is None or type(got.get(k)) is not type(exp[k]) or got.get(k) != exp[k])
+        h.check(res[0] == "ok" and not bad, f"c12:default-reinterpreted:enum:{','.join(bad) or (res[1] if res[0] == 'exc' else res[0])}",
+                f"omitted parameters must be bound to their signature defaults {exp}, the callee saw {got}", case)
+        h.nontrivial(("enum-defaults", tuple(argv)))
+
 
 if __name__ == "__main__":
     main()
